@@ -583,6 +583,33 @@ func (p *Prog) serveLoop(prop string) *serveResult {
 			if staleUse != nil {
 				staleUse(xx, st, in)
 			}
+			// a helper method of the ctx that assigns the zero value to such a field on every path clears it as well
+			if cc, ok := in.(*ssa.Call); ok && allCtxBits != 0 && st.Ev&allCtxBits != 0 {
+				if g := cc.Call.StaticCallee(); g != nil && inModule(g) && recvTypeName(g) == "RequestCtx" && len(g.Params) > 0 {
+					w := fieldsWritten(p, g, 0, 3)
+					for i, fv := range ctxFields {
+						bit := evCtxF0 << uint(i)
+						if !st.Has(bit) || !coveredBy(w, fv.Name()) {
+							continue
+						}
+						zeroOnly := true
+						for _, gb := range g.Blocks {
+							for _, gi := range gb.Instrs {
+								if gs, ok := gi.(*ssa.Store); ok {
+									if fa, ok := gs.Addr.(*ssa.FieldAddr); ok && fieldVar(fa.X.Type(), fa.Field) == fv {
+										if c, isC := gs.Val.(*ssa.Const); !isC || !(c.Value == nil || c.Value.ExactString() == "false" || c.Value.ExactString() == "0") {
+											zeroOnly = false
+										}
+									}
+								}
+							}
+						}
+						if zeroOnly {
+							st.Clear(bit)
+						}
+					}
+				}
+			}
 			// a zero value stored into a handler-settable ctx field clears it for the next request
 			if sto, ok := in.(*ssa.Store); ok && allCtxBits != 0 {
 				if fa, ok := sto.Addr.(*ssa.FieldAddr); ok && typeNameOf(fa.X) == "RequestCtx" {
